@@ -80,7 +80,7 @@ fn gen_field(g: &mut Gen, mel: bool, generics: &[String], prior: &[String]) -> F
 		Mode::Skip => g.pick(&SKIP_TYPES).to_string(),
 		Mode::Compact =>
 			if g.chance(40) {
-				"CW".to_string() // the CompactAs wrapper from the prelude
+				g.pick(&CW_TYPES).to_string() // a CompactAs wrapper from the prelude (over u32, u8, u16, u64, u128)
 			} else {
 				g.pick(&COMPACT_TYPES).to_string()
 			},
@@ -100,6 +100,7 @@ fn gen_field(g: &mut Gen, mel: bool, generics: &[String], prior: &[String]) -> F
 	FieldDef { ty, mode, extra_attrs: vec![] }
 }
 
+pub const CW_TYPES: [&str; 5] = ["CW", "CW8", "CW16", "CW64", "CW128"];
 pub const INT_TYPES: [&str; 5] = ["u8", "u16", "u32", "u64", "u128"];
 
 fn twin_fields(g: &mut Gen, prev: &[FieldDef]) -> Vec<FieldDef> {
@@ -162,7 +163,7 @@ pub fn gen_valid_def(g: &mut Gen, name: &str, mel: bool, prior: &[String]) -> De
 			let (inner, mode) = match g.below(5) {
 				0 => ("u32".to_string(), Mode::Compact),
 				1 => ("u64".to_string(), Mode::EncodedAs("Compact<u64>".into(), "Compact<u64>".into())),
-				2 => ("CW".to_string(), Mode::Compact),
+				2 => (g.pick(&CW_TYPES).to_string(), Mode::Compact),
 				_ => (inner, Mode::Plain),
 			};
 			fields = vec![FieldDef { ty: inner, mode, extra_attrs: vec![] }];
@@ -292,7 +293,7 @@ pub fn well_formed(def: &Def) -> Result<(), String> {
 		if f.mode == Mode::Skip && !SKIP_TYPES.contains(&f.ty.as_str()) && !f.ty.starts_with("PhantomData<") {
 			return Err(format!("skipped field of non-Default type {}", f.ty));
 		}
-		if f.mode == Mode::Compact && !COMPACT_TYPES.contains(&f.ty.as_str()) && f.ty != "CW" {
+		if f.mode == Mode::Compact && !COMPACT_TYPES.contains(&f.ty.as_str()) && !CW_TYPES.contains(&f.ty.as_str()) {
 			return Err(format!("compact field of type {}", f.ty));
 		}
 	}
@@ -749,7 +750,7 @@ impl Def {
 		if fields.iter().any(|f| matches!(f.mode, Mode::EncodedAs(..))) {
 			l.push("encoded_as-field".into());
 		}
-		if fields.iter().any(|f| f.ty == "CW") {
+		if fields.iter().any(|f| CW_TYPES.contains(&f.ty.as_str())) {
 			l.push("CompactAs-wrapper-field".into());
 		}
 		if !self.generics.is_empty() {
